@@ -650,7 +650,41 @@ def r01_4(ctx):
     # Parser::error specifically clamps: index > len -> index = len
     pe = prog.find("Parser::error")
     ok, why = _index_arg_ok(prog, pe, [b for b, t in pe.calls() if callee_is(t, "Error::syntax")][0], [t for b, t in pe.calls() if callee_is(t, "Error::syntax")][0], 2)
-    ctx.ob("R01.4", "Parser::error:clamp", ok and "compar" in why, pe.loc(), "Parser::error clamps the error index to the input length before rendering" if ok else "Parser::error passes an unclamped index to Error::syntax")
+    # the comparison alone is not a clamp: on its exceeding edge the index that is handed on must be replaced by len()
+    sb, st_ = [(b, t) for b, t in pe.calls() if callee_is(t, "Error::syntax")][0]
+    E = op_local(st_["args"][2])
+    for _ in range(6):
+        d = pe.single_def(E) if E is not None else None
+        if d and d[0] == "stmt" and d[3]["rv"]["k"] == "use" and op_local(d[3]["rv"]["op"]) is not None:
+            E = op_local(d[3]["rv"]["op"])
+        else:
+            break
+    lens = {b for b, t in pe.calls() if callee_is(t, "len")}
+    replaced = False
+    for b, i, s_ in pe.assigns():
+        rv = s_["rv"]
+        if not (rv["k"] == "binop" and rv["op"] in ("Gt", "Ge", "Lt", "Le")):
+            continue
+        sa_, sb_ = _sym(pe, rv["a"]), _sym(pe, rv["b"])
+        if sa_ is None or sb_ is None:
+            continue
+        a_len = sa_[0] is not None and sa_[0][0] == "call" and sa_[0][1] in lens
+        b_len = sb_[0] is not None and sb_[0][0] == "call" and sb_[0][1] in lens
+        if a_len == b_len:
+            continue
+        from ..analysis import bool_switch_edges
+        e = bool_switch_edges(pe, s_["lhs"][0])
+        if not e:
+            continue
+        op = rv["op"] if b_len else {"Lt": "Gt", "Gt": "Lt", "Le": "Ge", "Ge": "Le"}[rv["op"]]   # index op len
+        exceed = e[0] if op in ("Gt", "Ge") else e[1]
+        stores = [bb for bb, ii, ss in pe.assigns() if ss["lhs"] == [E, []] and (bb == exceed or pe.dominates(exceed, bb))
+                  and (lambda v: v is not None and v[0] is not None and v[0][0] == "call" and v[0][1] in lens and v[1] == 0)(_sym(pe, ss["rv"]["op"]) if ss["rv"]["k"] == "use" else None)]
+        if stores and sb not in pe.reachable_from(exceed, avoid=set(stores)) | ({exceed} - set(stores)):
+            replaced = True
+    ctx.ob("R01.4", "Parser::error:clamp", ok and "compar" in why and replaced, pe.loc(),
+           "Parser::error replaces an error index beyond the input by len() before rendering" if ok and replaced else
+           "Parser::error compares the error index with the input length but hands the unclamped index to Error::syntax: building the error underflows / slices out of range when the padded reader stopped inside the padding")
 
 
 def r01_5(ctx, config="native"):
@@ -1289,6 +1323,48 @@ def r01_15(ctx):
     ctx.ob("R01.15", "asserted-empty-buffers-hold", not bad, "", f"{len(sites)} assertion(s) that a caller-supplied scratch buffer is empty; every transitive call site passes a fresh or cleared buffer" if not bad else f"{len(bad)} call path(s) reach an emptiness assertion with a written buffer")
 
 
+def r01_16(ctx):
+    """a raw write into the spare capacity of a Vec is preceded by a reserve of at least its extent: the UTF-8 encoder
+    writes up to the largest length it can return (evaluated by the interval engine), so every caller that points it at
+    `as_mut_ptr().add(len())` of a Vec reserves at least that many bytes on every path, before set_len"""
+    from ..intervals import Intervals
+    prog = ctx.prog()
+    enc = prog.find("util::unicode::codepoint_to_utf8")
+    iv = Intervals(enc)
+    hi = 0
+    for b in enc.return_blocks:
+        st = iv.before_term(b)
+        v = iv.get(st, (0, ())) if st is not None else None
+        if v is None:
+            hi = None
+            break
+        hi = max(hi, v[1])
+    ctx.ob("R01.16", "encoder:extent", hi is not None and 1 <= hi <= 8, enc.loc(), f"codepoint_to_utf8 returns (and writes) at most {hi} bytes", nontrivial=False)
+    if not hi:
+        return
+    n = 0
+    for f in prog.fns.values():
+        if f.crate != "sonic_rs":
+            continue
+        for b, t in f.calls():
+            if t.get("callee") != enc.id:
+                continue
+            pl = op_local(t["args"][1])
+            sl, leaves = backward_slice(f, [pl]) if pl is not None else (set(), [])
+            vecptr = [lf for lf in leaves if lf[0] == "call" and callee_is(lf[2], "as_mut_ptr") and "Vec" in lf[2]["callee"]]
+            if not vecptr:
+                continue
+            n += 1
+            res = [(rb, rt) for rb, rt in f.calls() if callee_is(rt, "reserve") and "Vec" in rt["callee"] and f.dominates(rb, b) and rb != b]
+            amounts = [op_int(rt["args"][1]) for rb, rt in res]
+            ok = bool(res) and any(a is not None and a >= hi for a in amounts)
+            owner = prog.fns.get(f.parent_fn, f) if f.parent_fn else f
+            ctx.ob("R01.16", f"reserve-before-raw-write:{short(owner.id)}", ok, f.loc(t["ln"]),
+                   f"reserve({max(a for a in amounts if a is not None)}) dominates the raw write of up to {hi} bytes" if ok else
+                   f"the encoder writes up to {hi} bytes behind len() of the Vec, but the dominating reserve is {amounts or 'missing'}: a four-byte code point (a decoded surrogate pair) is written past the allocation")
+    ctx.floor("R01.16", "raw encoder writes into a Vec's spare capacity", n, 1)
+
+
 def r01_14(ctx):
     """data borrowed for 'de lives in the caller's buffer: a JsonInput implemented for a reference gives the reader either
     the borrowed bytes themselves or an owner that shares the caller's buffer.  The reader pins what it is given and
@@ -1375,4 +1451,4 @@ def r01_s(ctx):
     ctx.include(c16.r16_6, 'R01.S')
 
 
-RULES = [("R01.1", r01_1), ("R01.2", r01_2), ("R01.2b", r01_2b), ("R01.3", r01_3), ("R01.4", r01_4), ("R01.4b", r01_4b), ("R01.5", r01_5), ("R01.6", r01_6), ("R01.7", r01_7), ("R01.8", r01_8), ("R01.9", r01_9), ("R01.10", r01_10), ("R01.11", r01_11), ("R01.12", r01_12), ("R01.13", r01_13), ("R01.14", r01_14), ("R01.15", r01_15), ("R01.W", r01_w), ("R01.S", r01_s)]
+RULES = [("R01.1", r01_1), ("R01.2", r01_2), ("R01.2b", r01_2b), ("R01.3", r01_3), ("R01.4", r01_4), ("R01.4b", r01_4b), ("R01.5", r01_5), ("R01.6", r01_6), ("R01.7", r01_7), ("R01.8", r01_8), ("R01.9", r01_9), ("R01.10", r01_10), ("R01.11", r01_11), ("R01.12", r01_12), ("R01.13", r01_13), ("R01.14", r01_14), ("R01.15", r01_15), ("R01.16", r01_16), ("R01.W", r01_w), ("R01.S", r01_s)]
